@@ -84,6 +84,9 @@ pub struct Interp<'a> {
     balanced_run: Vec<u32>,
     /// balanced sends refused with topic-full since the last balanced send that landed
     refused_balanced: u32,
+    /// messages the sibling topic t2 (same stream) and the sibling stream s2 hold (0 = absent / purged)
+    sib_topic_msgs: u64,
+    sib_stream_msgs: u64,
     step: usize,
     /// payloads >= 8 bytes sent while encryption was on (C19 scan)
     enc_payloads: Vec<Vec<u8>>,
@@ -136,6 +139,8 @@ impl<'a> Interp<'a> {
             key_map: HashMap::new(),
             balanced_run: vec![],
             refused_balanced: 0,
+            sib_topic_msgs: 0,
+            sib_stream_msgs: 0,
             step: 0,
             enc_payloads: vec![],
             wrong_key: false,
@@ -188,14 +193,17 @@ impl<'a> Interp<'a> {
         let deadline = std::time::Instant::now() + std::time::Duration::from_secs(secs);
         loop {
             let mut settled = true;
-            let mut targets: Vec<(u32, u32)> = (1..=self.parts.len() as u32).map(|p| (TOPIC, p)).collect();
+            let mut targets: Vec<(u32, u32, u32)> = (1..=self.parts.len() as u32).map(|p| (STREAM, TOPIC, p)).collect();
             if self.case.sibling_segs > 0 {
-                targets.push((TOPIC + 1, 1));
+                targets.push((STREAM, TOPIC + 1, 1));
+                if self.has_sibling_stream() {
+                    targets.push((STREAM + 1, 1, 1));
+                }
             }
-            for (topic, pid) in targets {
-                for s in self.observe_topic(topic, pid) {
+            for (stream, topic, pid) in targets {
+                for s in self.observe_at(stream, topic, pid) {
                     let want = s.size.saturating_sub(s.unsaved_bytes);
-                    let f = self.dir.path.join(format!("streams/1/topics/{topic}/partitions/{pid}/{:020}.log", s.start));
+                    let f = self.dir.path.join(format!("streams/{stream}/topics/{topic}/partitions/{pid}/{:020}.log", s.start));
                     let have = std::fs::metadata(&f).map(|m| m.len()).unwrap_or(0);
                     if have < want {
                         settled = false;
@@ -213,6 +221,10 @@ impl<'a> Interp<'a> {
         }
     }
 
+    /// C16 cases with a sibling topic also get a sibling stream (the statistics then sum over two streams)
+    fn has_sibling_stream(&self) -> bool {
+        self.case.sibling_segs > 0 && self.focus() == "C16"
+    }
     fn node(&self) -> &Node {
         self.node.as_ref().expect("node running")
     }
@@ -305,11 +317,15 @@ impl<'a> Interp<'a> {
     }
 
     fn observe_topic(&self, topic_id: u32, pid: u32) -> Vec<SegObs> {
+        self.observe_at(STREAM, topic_id, pid)
+    }
+
+    fn observe_at(&self, stream_id: u32, topic_id: u32, pid: u32) -> Vec<SegObs> {
         let n = self.node();
         n.block_on(async {
             let sys = n.system.read().await;
             let mut v = vec![];
-            if let Ok(stream) = sys.get_stream(&sid()) {
+            if let Ok(stream) = sys.get_stream(&Identifier::numeric(stream_id).unwrap()) {
                 if let Ok(topic) = stream.get_topic(&Identifier::numeric(topic_id).unwrap()) {
                     if let Ok(part) = topic.get_partition(pid) {
                         let part = part.read().await;
